@@ -21,9 +21,13 @@ Chunk *const Chunk::NullChunkPtr = &g_null_chunk;
 struct strip_cursor_t { size_t col; };
 struct strip_ctx_t { strip_cursor_t c; };
 extern "C" {
-size_t tokenize_strip(Chunk *chunkp, size_t col)
+// the chunk being finished by this iteration of the loop: a typed global object with arbitrary content (the harness havocs it), so that the
+// verifier sees field accesses instead of byte arithmetic into an untyped object
+static Chunk g_strip_chunk;
+extern Chunk *const SC = &g_strip_chunk;
+size_t tokenize_strip(size_t col)
 {
-   Chunk       &chunk = *chunkp;
+   Chunk       &chunk = g_strip_chunk;
    strip_ctx_t ctx; ctx.c.col = col;       // the fragment reads ctx.c.col only
    size_t      prev_sp;                     // declared `size_t prev_sp` in tokenize()
    int         num_stripped;                // declared `int num_stripped` in tokenize()
@@ -38,8 +42,8 @@ extern const unsigned CT_IGNORED_V = CT_IGNORED;
 extern size_t g_strip_old_size;
 void h_tokenize_strip()
 {
-   Chunk *c;
-   size_t n = tokenize_strip(c, nondet_size_t());
+   __CPROVER_havoc_object(&g_strip_chunk);
+   size_t n = tokenize_strip(nondet_size_t());
    if (n > 2) { CANARY("tokenize strip: several blanks stripped"); }
    if (n == 0) { CANARY("tokenize strip: nothing stripped"); }
 }
